@@ -84,7 +84,23 @@ func pctText(p int) string {
 
 // actionsJSON renders the `actions:` list of a pipeline config with this
 // single throttle action, as it would appear in a file.d config file.
-func (c *Config) actionsJSON() []byte {
+func (c *Config) actionsJSON() []byte { return actionsJSON(c) }
+
+// actionsJSON renders a pipeline `actions:` list with one throttle action per
+// configuration, in order.
+func actionsJSON(cfgs ...*Config) []byte {
+	var list []any
+	for _, c := range cfgs {
+		list = append(list, c.actionMap())
+	}
+	b, err := json.Marshal(list)
+	if err != nil {
+		panic(err)
+	}
+	return b
+}
+
+func (c *Config) actionMap() map[string]any {
 	a := map[string]any{
 		"type":            "throttle",
 		"bucket_interval": c.Interval,
@@ -114,11 +130,7 @@ func (c *Config) actionsJSON() []byte {
 		}
 		a["rules"] = rs
 	}
-	b, err := json.Marshal([]any{a})
-	if err != nil {
-		panic(err)
-	}
-	return b
+	return a
 }
 
 // ---- events ----
@@ -203,12 +215,13 @@ type Step struct {
 
 // Case is one generated history.
 type Case struct {
-	Seed     int64  `json:"seed"`
-	Clause   string `json:"clause"` // seq | conc
-	Cfg      Config `json:"cfg"`
-	Steps    []Step `json:"steps"`
-	Sources  int    `json:"sources,omitempty"`
-	NEvents  int    `json:"n_events"`
+	Seed     int64   `json:"seed"`
+	Clause   string  `json:"clause"` // seq | conc
+	Cfg      Config  `json:"cfg"`
+	Cfg2     *Config `json:"cfg2,omitempty"` // multi clause: a second throttle action after the first
+	Steps    []Step  `json:"steps"`
+	Sources  int     `json:"sources,omitempty"`
+	NEvents  int     `json:"n_events"`
 	distFlds []string
 }
 
